@@ -91,12 +91,13 @@ fn purge_step(rotate: bool) {
     // nothing is unlinked or handed to the worker by purge itself, except the
     // rotation hand-off (old tail Write + AppendFile) when the chunk filled up
     let sent1 = awal::queue_sent(&rl.wal);
-    let mut i = sent0;
-    while i < gc::QCAP {
-        if i < sent1 {
-            assert!(gc::tag_at(0, i) != 1, "purge handed RemoveChunks to the worker before any flush");
+    assert!(sent1 <= sent0 + 3, "purge queued more than a rotation hand-off");
+    let mut k = 0;
+    while k < 3 {
+        if sent0 + k < sent1 {
+            assert!(gc::tag_at(0, sent0 + k) != 1, "purge handed RemoveChunks to the worker before any flush");
         }
-        i += 1;
+        k += 1;
     }
     assert!(gfs::fs().n_unlink == 0);
     // flush: the synced Write (it carries the purge record or follows it) is
